@@ -30,6 +30,7 @@ MIN_NONTRIVIAL = {"quick": 300, "thorough": 1000}
 EXHAUSTIVE = {"quick": True, "thorough": True}
 NMAX_RUN = {"quick": 12, "thorough": 40}
 NMAX_HIST = {"quick": 6, "thorough": 13}
+NBIG = {"quick": 20, "thorough": 200}
 
 LEVEL_TEXT = ("Complete enumeration of the configuration space the property names (element kind, "
               "bufsize 1..5, buffer mode, reset, yield_on_remainder) with every flow length up to "
@@ -368,6 +369,42 @@ def cases(tier, seed):
                                "N": N}
                     yield {"k": "split", "kind": kind, "n": n, "mode": mode, "reset": reset,
                            "nmax": min(nmax, 10)}
+    # beyond the small sizes: block sizes 6..130, flows up to several blocks of them, request
+    # schedules drawn at random (sparse, dense, only off block boundaries), Split block sizes
+    # around the block size and its multiples
+    from rv import gen
+    for kind in RUN_KINDS + FC_KINDS + FR_KINDS:
+        for j in range(NBIG[tier]):
+            rng = gen.rng_for(seed, "C16big", kind, j)
+            n = rng.choice([6, 7, 8, 15, 16, 17, 31, 32, 33, 63, 64, 65, 100, 127, 128, 129,
+                            rng.randint(6, 130)])
+            mode = rng.choice(["in", "out"])
+            if kind == "fc_live" and mode == "out":
+                mode = "in"
+            reset = rng.choice([False, True]) if has_reset(kind) else False
+            Ns = sorted(set([n - 1, n, n + 1, 2 * n - 1, 2 * n, 2 * n + 1, 3 * n + rng.randint(0, n),
+                             rng.randint(17, 4 * n)]))
+            yield {"k": "run", "kind": kind, "n": n, "mode": mode, "reset": reset,
+                   "yor": rng.choice([False, True]), "nmax": Ns[-1], "Ns": Ns, "big": 1}
+            if kind.startswith("run_"):
+                continue
+            N = rng.choice(Ns[2:])
+            masks = []
+            for _m in range(6):
+                dens = rng.choice([0.02, 0.1, 0.5, 0.9])
+                m = 0
+                for i in range(N):
+                    if rng.random() < dens and not (_m == 5 and (i + 1) % n == 0):
+                        m |= 1 << i
+                masks.append(m)
+            masks.append(sum(1 << i for i in range(N) if (i + 1) % n == 0))   # aligned
+            masks.append((1 << N) - 1)                                          # after every fill
+            yield {"k": "hist", "kind": kind, "n": n, "mode": mode, "reset": reset, "N": N,
+                   "masks": [m or 1 for m in masks], "big": 1}
+            yield {"k": "split", "kind": kind, "n": n, "mode": mode, "reset": reset,
+                   "nmax": Ns[-1], "Ns": [Ns[1], Ns[-2], Ns[-1]],
+                   "bs": sorted(set([1, n - 1, n, n + 1, 2 * n, 2 * n + 1, n // 2, n // 2 + 1,
+                                     rng.randint(2, 3 * n)])) + [1000, None], "big": 1}
     # values that are false or None at every position of the flow (block starts included)
     for kind in ["run_collect", "run_first", "fc_store", "fc_count", "fr_store", "fr_inner",
                  "fr_custom"]:
@@ -525,7 +562,7 @@ def run_case(r, obs):
         return
     if k == "run":
         kind, n, mode, reset, yor = r["kind"], r["n"], r["mode"], r["reset"], r["yor"]
-        for N in range(0, r["nmax"] + 1):
+        for N in (r.get("Ns") or range(0, r["nmax"] + 1)):
             xs = list(range(1, N + 1))
             exp = model_run(kind, n, reset, yor, xs)
             fr = make_fr(kind, n, mode, reset, yor)
@@ -721,7 +758,7 @@ def run_case(r, obs):
         exp = model_run(kind, n, reset, False, xs)
         if N >= n:
             obs.nontrivial = True
-        for mask in range(1 << N):
+        for mask in (r.get("masks") or range(1 << N)):
             fr = make_fr(kind, n, mode, reset, False)
             got = []
             hist = []
@@ -852,10 +889,10 @@ def run_case(r, obs):
                          % (kind, n, mode, reset, " ".join(hist), got, exp))
     elif k == "split":
         kind, n, mode, reset = r["kind"], r["n"], r["mode"], r["reset"]
-        for N in range(0, r["nmax"] + 1):
+        for N in (r.get("Ns") or range(0, r["nmax"] + 1)):
             xs = list(range(1, N + 1))
             exp = model_run(kind, n, reset, False, xs)
-            for b in list(range(1, N + 2)) + [1000, None]:
+            for b in (r.get("bs") or list(range(1, N + 2)) + [1000, None]):
                 fr = make_fr(kind, n, mode, reset, False)
                 sp = lena.core.Split([fr], bufsize=b)
                 obs.count("split_executions")
